@@ -5,7 +5,8 @@
    r_seed s.  All theorems hold for EVERY such oracle; the range/support theorems that need it assume only the
    contract of random.Random (0 <= k < 2^53, 0 <= _randbelow(n) < n), which [C11_contract_satisfiable] shows
    to be satisfiable.  After the sections close, the theorems quantify over R, r_unit, r_below, r_seed. *)
-From Isobar Require Import Base.Prelude Pat.Chance Pat.ChanceProofs.
+From Isobar Require Import Base.Prelude Pat.Chance Pat.ChanceProofs Pat.ChanceCopy Pat.ChanceCopyProofs
+  Pat.ChanceSeed Pat.ChanceSeedProofs.
 From Coq Require Import QArith Permutation Lqa.
 Local Notation length := List.length (only parsing).
 Open Scope Z_scope.
@@ -231,3 +232,153 @@ Example C11_isolation_nonvacuous :
                      [WP 0 Next; WGUnit; WP 1 Next; WGSeed 3; WP 0 Next; WP 1 Next; WP 1 (Seed 0); WP 1 Next])
   = [Out (OZ 1); Out (OZ 0); Out (OZ 1)].
 Proof. vm_compute. reflexivity. Qed.
+
+(** * Copies used side by side (Pat/ChanceCopy.v)
+   Pattern.copy() gives the copy its own generator, in the state of the source's at the time of the copy.  A family
+   is an original and its copies (and copies of copies): the same machine (class, arguments, wrappers — a stochastic
+   pattern nested inside deterministic wrappers is a machine too, [stutterm], [mapm]).  The schedule interleaves
+   next / reset() / seed(s) on any member, copy() between members, and calls of Python's global generator. *)
+Section Copies.
+  Variable R : Type.
+  Variable r_unit : R -> Z * R.
+  Variable r_below : Z -> R -> Z * R.
+  Variable r_seed : Z -> R.
+  Variable S : Type.
+  Variable m : machine R S.
+  Notation crun := (crun R r_unit r_below r_seed S m).
+
+  (* a member that no copy() overwrites produces exactly what it produces alone on its own operations: draws,
+     reset() and seed() on its copies — and taking copies of it — do not affect its sequence *)
+  Theorem C11_copy_isolation : forall a sched w, never_dst a sched = true ->
+    outputs_of a (crun w sched) = run R r_seed m (c_inst w a) (cproj a sched).
+  Proof. intros. apply copy_isolation. assumption. Qed.
+
+  (* a seeded original equals ANY other instance with the same arguments and seed (driven alone by the same
+     operations), whatever happens to its copies *)
+  Theorem C11_copy_original_equals_any_twin : forall a s sched w,
+    c_inst w a = fresh R r_seed m s -> never_dst a sched = true ->
+    outputs_of a (crun w sched) = run R r_seed m (fresh R r_seed m s) (cproj a sched).
+  Proof. intros. apply seeded_original_any_twin; assumption. Qed.
+
+  (* a copy taken at any point continues, on its own operations, from the state its source had at that point *)
+  Theorem C11_copy_continues_from_source : forall a b pre post w,
+    a <> b -> never_dst a pre = true -> never_dst b post = true ->
+    outputs_of b (crun w (pre ++ CCopy a b :: post)) =
+    outputs_of b (crun w pre) ++ run R r_seed m (after R r_seed m (c_inst w a) (cproj a pre)) (cproj b post).
+  Proof. intros. apply copy_continues; assumption. Qed.
+
+  (* source and copy driven alike after the copy agree, however their operations are interleaved *)
+  Theorem C11_copy_agrees_with_source : forall a b pre post w, a <> b ->
+    never_dst a (pre ++ CCopy a b :: post) = true -> never_dst b post = true ->
+    cproj a post = cproj b post ->
+    outputs_of b (crun (cafter R r_unit r_below r_seed S m w (pre ++ [CCopy a b])) post) =
+    outputs_of a (crun (cafter R r_unit r_below r_seed S m w (pre ++ [CCopy a b])) post).
+  Proof. intros. apply copy_agrees_with_source; assumption. Qed.
+
+  (* a copy taken right after seeding is itself an instance with those arguments and that seed *)
+  Theorem C11_copy_of_seeded : forall a b s post w,
+    a <> b -> c_inst w a = fresh R r_seed m s -> never_dst b post = true ->
+    outputs_of b (crun w (CCopy a b :: post)) = run R r_seed m (fresh R r_seed m s) (cproj b post).
+  Proof. intros. apply copy_of_seeded; assumption. Qed.
+End Copies.
+Print Assumptions C11_copy_isolation.
+Print Assumptions C11_copy_continues_from_source.
+
+(* not vacuous, and not true of the design in which original and copy share ONE generator: there the original's
+   outputs depend on the draws of its copy *)
+Example C11_copy_isolation_nonvacuous :
+  let m := white Z toy_unit false 0 1000 0 in
+  outputs_of 0 (crun Z toy_unit toy_below ChanceCopyProofs.toy_seed Z m
+                     (mkCW (fun _ => fresh Z ChanceCopyProofs.toy_seed m 5) 0)
+                     [CCopy 0 1; CP 0 Next; CP 1 Next; CP 1 Next; CP 0 Next])
+  = run Z ChanceCopyProofs.toy_seed m (fresh Z ChanceCopyProofs.toy_seed m 5) [Next; Next] /\
+  map snd (filter (fun x => negb (fst x)) (sh_run Z Z m 0 0 (ChanceCopyProofs.toy_seed 5) [false; true; true; false]))
+  <> run Z ChanceCopyProofs.toy_seed m (fresh Z ChanceCopyProofs.toy_seed m 5) [Next; Next].
+Proof. exact sharing_breaks_isolation. Qed.
+
+(* a stochastic pattern nested in deterministic wrappers: PStutter(PWhite(0, 10) + 3, 2) on the replay generator; the
+   copy taken after one value repeats it (the stutter state is copied) and then draws what the original draws *)
+Example C11_copy_wrapped_nonvacuous :
+  let sd := rp_seed [[4503599627370496; 900719925474099; 8106479329266893]] in
+  let m := stutterm replay _ 2 (mapm replay _ (add_k 3) (white replay rp_unit false 0 10 0)) in
+  crun replay rp_unit rp_below sd _ m (mkCW (fun _ => fresh replay sd m 0) (sd 0))
+       [CP 0 Next; CCopy 0 1; CP 1 Next; CP 1 Next; CP 0 Next; CP 0 Next; CP 1 Reset; CP 1 Next]
+  = [(0%nat, Out (OZ 8)); (1%nat, Out (OZ 8)); (1%nat, Out (OZ 3)); (0%nat, Out (OZ 8)); (0%nat, Out (OZ 3));
+     (1%nat, Out (OZ 8))].
+Proof. vm_compute. reflexivity. Qed.
+
+(** * Seed values of every kind, and independence of the interpreter process (Pat/ChanceSeed.v)
+   random.seed reduces an int / bool / float / str / bytes / bytearray seed to a non-negative integer key
+   ([seed_key]: abs, the unsigned image of the numeric hash, int.from_bytes(a + sha512(a)); SHA-512 is a Section
+   variable) and initialises the generator from it: the state after seed(s) is [r_seed (seed_key s)].  Nothing in it
+   depends on the process (string-hash salt, object identities). *)
+Section SeedValues.
+  Variable sha : list Z -> list Z.
+  Variable R : Type.
+  Variable r_unit : R -> Z * R.
+  Variable r_below : Z -> R -> Z * R.
+  Variable r_seed : Z -> R.
+  Variable S : Type.
+  Variable m : machine R S.
+
+  (* for a seed value of ANY kind: seed(s); reset() at any point of any history gives the sequence of a new instance
+     seeded with s, and every reset() replays it *)
+  Theorem C11_seed_values_reseed_replays : forall i pre s post,
+    runv sha R r_seed S m i (pre ++ SeedV s :: ResetV :: post) =
+    runv sha R r_seed S m i pre ++ runv sha R r_seed S m (freshv sha R r_seed S m s) post.
+  Proof. exact (reseed_replays_v sha R r_seed S m). Qed.
+
+  Theorem C11_seed_values_reset_replays : forall s pre post, no_seedv pre ->
+    runv sha R r_seed S m (freshv sha R r_seed S m s) (pre ++ ResetV :: post) =
+    runv sha R r_seed S m (freshv sha R r_seed S m s) pre ++ runv sha R r_seed S m (freshv sha R r_seed S m s) post.
+  Proof. exact (reset_replays_v sha R r_seed S m). Qed.
+
+  (* the sequence depends on the seed value through its key only; in particular -z and z, True and 1, a str and its
+     UTF-8 bytes, bytes and bytearray, and any value and its key (an int) give the same sequence *)
+  Theorem C11_seed_values_same_key_same_sequence : forall s1 s2 ops, seed_key sha s1 = seed_key sha s2 ->
+    runv sha R r_seed S m (freshv sha R r_seed S m s1) ops = runv sha R r_seed S m (freshv sha R r_seed S m s2) ops.
+  Proof. exact (same_key_same_sequence sha R r_seed S m). Qed.
+
+  Theorem C11_seed_keys : forall z b l s,
+    seed_key sha (SInt (- z)) = seed_key sha (SInt z) /\
+    seed_key sha (SBool b) = seed_key sha (SInt (if b then 1 else 0)) /\
+    seed_key sha (SStr l) = seed_key sha (SBytes l) /\ seed_key sha (SBytes l) = seed_key sha (SBytearray l) /\
+    (0 <= seed_key sha s -> seed_key sha (SInt (seed_key sha s)) = seed_key sha s) /\
+    match s with SInt _ | SBool _ | SFloat _ _ => 0 <= seed_key sha s | _ => True end.
+  Proof.
+    intros. split; [apply key_neg|]. split; [apply key_bool|]. split; [reflexivity|].
+    split; [reflexivity|]. split; [apply key_idempotent | apply key_numeric_nonneg].
+  Qed.
+End SeedValues.
+Print Assumptions C11_seed_values_reseed_replays.
+Print Assumptions C11_seed_keys.
+
+(* two runs of a program in two interpreter processes = two arbitrary worlds (other patterns, state of the global
+   generator, the rest of the schedule; no string-hash salt occurs in the model at all): a pattern seeded with the
+   same value of any kind and driven by the same operations produces the same outputs in both *)
+Theorem C11_seed_process_independent :
+  forall sha R r_unit r_below (r_seed : Z -> R) S (M M' : nat -> machine R S) a a' s sched sched' w w',
+  M a = M' a' ->
+  w_inst R S w a = freshv sha R r_seed S (M a) s -> w_inst R S w' a' = freshv sha R r_seed S (M' a') s ->
+  proj a sched = proj a' sched' ->
+  outputs_of a (wrun R r_unit r_below r_seed S M w sched) = outputs_of a' (wrun R r_unit r_below r_seed S M' w' sched').
+Proof. exact seed_process_independent. Qed.
+Print Assumptions C11_seed_process_independent.
+
+(* not vacuous: seed_key on concrete values (hash(0.25) = 2^59, hash(-0.25) cast to unsigned, abs(-3),
+   int.from_bytes(b"ab" + digest)), and a reduction through a salted hash does NOT have the property *)
+Example C11_seed_key_nonvacuous :
+  seed_key (fun _ => []) (SFloat 1 2) = 576460752303423488 /\
+  seed_key (fun _ => []) (SFloat (-1) 2) = 17870283321406128128 /\
+  seed_key (fun _ => []) (SInt (-3)) = 3 /\
+  seed_key (fun _ => [1; 2]) (SStr [97; 98]) = 1633812738.
+Proof. vm_compute. repeat split. Qed.
+
+Example C11_seed_salted_hash_nonvacuous :
+  let m := white Z ChanceSeedProofs.toy_unit false 0 1000 0 in
+  let verse := SStr [118; 101; 114; 115; 101] in
+  (forall sha, run Z ChanceSeedProofs.toy_seed m (fresh Z ChanceSeedProofs.toy_seed m (seed_key sha verse)) [Next; Next]
+             = run Z ChanceSeedProofs.toy_seed m (fresh Z ChanceSeedProofs.toy_seed m (seed_key sha (SBytes [118; 101; 114; 115; 101]))) [Next; Next]) /\
+  run Z ChanceSeedProofs.toy_seed m (fresh Z ChanceSeedProofs.toy_seed m (seed_key_hashed toy_hash 1 verse)) [Next; Next]
+  <> run Z ChanceSeedProofs.toy_seed m (fresh Z ChanceSeedProofs.toy_seed m (seed_key_hashed toy_hash 2 verse)) [Next; Next].
+Proof. exact hashed_seed_differs. Qed.
